@@ -74,6 +74,7 @@ func cmdCheck(args []string) int {
 	timeout := fs.Int("timeout", 30000, "solver timeout per query (ms)")
 	maxPaths := fs.Int("max-paths", 0, "stop a harness after this many paths (0 = no limit)")
 	bufSize := fs.Int("bufsize", 0, "reduce reader.go's buffer to this many bytes in the overlay copy (0 = real size)")
+	extraBuf := fs.String("extra-bufsizes", "", "comma-separated further buffer sizes: harnesses marked //verif:bufsensitive are re-run on each")
 	cpuprof := fs.String("cpuprofile", "", "write cpu profile")
 	instFilter := fs.String("inst", "", "only instances whose description contains this")
 	noEvidence := fs.Bool("no-evidence", false, "do not write the evidence file")
@@ -88,6 +89,36 @@ func cmdCheck(args []string) int {
 		return 2
 	}
 	t0 := time.Now()
+	extraRC := 0
+	for _, bs := range strings.Split(*extraBuf, ",") {
+		n, err := strconv.Atoi(strings.TrimSpace(bs))
+		if err != nil || n <= 0 {
+			continue
+		}
+		ge, err := Load(*repo, *verif, []string{"stack", "internal"}, n)
+		if err != nil {
+			fmt.Fprintln(os.Stderr, "load failed:", err)
+			return 2
+		}
+		ge.loadKnown()
+		for _, prop := range props {
+			var hs []*Harness
+			for _, h := range ge.Harnesses(*tier) {
+				if h.Prop == prop && h.BufSensitive && (*only == "" || strings.Contains(h.Name, *only)) {
+					hs = append(hs, h)
+				}
+			}
+			if len(hs) == 0 {
+				continue
+			}
+			fmt.Printf("[%s] additional reader buffer size %d\n", prop, n)
+			r := ge.checkProperty(prop, hs, *tier, *seed, RunOpts{Workers: *workers, Solver: *solver, TimeoutMs: *timeout, MaxViol: 8, Verbose: *verbose, MaxPaths: *maxPaths, InstFilter: *instFilter}, !*noReplay, time.Now(), false)
+			extraRuns = append(extraRuns, map[string]interface{}{"property": prop, "buffer_bytes": n, "exit": r, "paths": ge.lastPaths, "queries": ge.lastQueries, "harnesses": ge.lastHarnesses})
+			if r > extraRC {
+				extraRC = r
+			}
+		}
+	}
 	g, err := Load(*repo, *verif, []string{"stack", "internal"}, *bufSize)
 	if err != nil {
 		fmt.Fprintln(os.Stderr, "load failed:", err)
@@ -125,8 +156,13 @@ func cmdCheck(args []string) int {
 			rc = r
 		}
 	}
+	if extraRC > rc {
+		rc = extraRC
+	}
 	return rc
 }
+
+var extraRuns []map[string]interface{}
 
 func envOr(k, d string) string {
 	if v := os.Getenv(k); v != "" {
@@ -304,6 +340,11 @@ func (g *Engine) checkProperty(prop string, hs []*Harness, tier string, seed int
 		fmt.Println(l)
 	}
 	wall := time.Since(t0).Seconds()
+	g.lastPaths, g.lastQueries = totalPaths, totalQueries
+	g.lastHarnesses = nil
+	for _, hs := range sums {
+		g.lastHarnesses = append(g.lastHarnesses, fmt.Sprintf("%s: %d instances, %d paths, %d queries", hs.Name, hs.Instances, hs.Paths, hs.Queries))
+	}
 	if writeEv {
 		ev := map[string]interface{}{
 			"property_id": prop,
@@ -330,6 +371,8 @@ func (g *Engine) checkProperty(prop string, hs []*Harness, tier string, seed int
 				"load_and_ssa_build_s":          g.LoadTime.Seconds(),
 				"inconclusive":                  inconclusive,
 				"known_findings_announced":      knownAnnounced,
+				"additional_buffer_sizes":       extraRuns,
+				"reader_buffer_bytes":           g.BufSize,
 				"encoding":                      "regenerated from the working tree on this run: go/packages + go/ssa over " + g.repo + " with harness overlay; QF_BV terms",
 			},
 			"assumptions": g.assumptions(hs),
